@@ -16,8 +16,13 @@
 
    Ids are abstracted to the nine roles of DESIGN.md 4/C10.  A configuration says
    which roles are in the known list / block list, whether enforcement is asked
-   for, and which id the transport reports as the active gateway.                *)
-EXTENDS Naturals, FiniteSets, TLC
+   for, and which id the transport reports as the active gateway.
+
+   A protocol object outlives its connection (connection_lost, then connection_made
+   again with a transport that reports the same, another or no gateway id): the
+   life-cycle section below says which configuration is in force after such a
+   history, and what state the code's filter is in.                              *)
+EXTENDS Naturals, FiniteSets, Sequences, TLC
 
 Roles  == {"Listed", "Unlisted", "Blocked", "ListedAndBlocked", "Gwy", "Foreign18",
            "Placeholder", "Broadcast", "Null"}
@@ -44,7 +49,8 @@ Block(c) == (IF c.bl THEN {"Blocked", "ListedAndBlocked"} ELSE {})
             \cup (IF c.ph = "block" THEN {"Placeholder"} ELSE {})
             \cup (IF c.fgn = "block" THEN {"Foreign18"} ELSE {})
 
-ActiveId(c) == CASE c.act = "gwy" -> "Gwy" [] c.act = "foreign" -> "Foreign18" [] OTHER -> "NoId"
+ActId(a)    == CASE a = "gwy" -> "Gwy" [] a = "foreign" -> "Foreign18" [] OTHER -> "NoId"
+ActiveId(c) == ActId(c.act)
 
 (* select_device_filter_mode: an empty known list cannot be enforced *)
 Enforced(c) == c.enf /\ Known(c) # {}
@@ -86,18 +92,58 @@ DropClause(r) == IF \E id \in Addrs(r) : BlockListed(id, r.cfg) THEN "a" ELSE "c
 
 CodeExclude(c) == Block(c)
 CodeInclude(c) == Known(c) \cup {"Broadcast", "Null"}          \* __init__ adds 63:262142, --:------
-CodeActive(c)  == IF ActiveId(c) \in CodeExclude(c) THEN "NoId" ELSE ActiveId(c)   \* _set_active_hgi
 
-(* one pass of the for-loop body of _is_wanted_addrs: "drop" / "next" *)
-CodeId(id, c, sending) ==
-    IF id \in CodeExclude(c) THEN "drop"                               \* 1
-    ELSE IF id = CodeActive(c) THEN "next"                             \* 2
-    ELSE IF id \in CodeInclude(c) THEN "next"                          \* 3
+(* the filter's state: __init__, then connection_made -> _set_active_hgi, connection_lost *)
+CodeInit(c) == [excl |-> CodeExclude(c), incl |-> CodeInclude(c), enf |-> Enforced(c), active |-> "NoId"]
+
+(* _set_active_hgi(id the transport reports).  `append` = the line the code has commented out
+   ("# self._include.append(dev_id)  # a good idea?"): FALSE is the code, TRUE is the question.    *)
+CodeConnMadeP(s, a, append) ==
+    LET id == ActId(a) IN
+    IF id = "NoId" \/ id \in s.excl THEN [s EXCEPT !.active = "NoId"]
+    ELSE [s EXCEPT !.active = id,
+                   !.incl   = IF append /\ id \notin s.incl THEN s.incl \cup {id} ELSE s.incl]
+CodeConnMade(s, a) == CodeConnMadeP(s, a, FALSE)
+CodeConnLost(s)    == [s EXCEPT !.active = "NoId"]     \* "the next connection (if any) will set it again"
+
+CodeState(c)   == CodeConnMade(CodeInit(c), c.act)     \* one connection, reporting c.act
+CodeActive(c)  == CodeState(c).active
+
+(* one pass of the for-loop body of _is_wanted_addrs in state s: "drop" / "next" *)
+CodeIdIn(id, s, sending) ==
+    IF id \in s.excl THEN "drop"                                       \* 1
+    ELSE IF id = s.active THEN "next"                                  \* 2
+    ELSE IF id \in s.incl THEN "next"                                  \* 3
     ELSE IF sending /\ id = "Placeholder" THEN "next"                  \* 4
-    ELSE IF Enforced(c) THEN "drop"                                    \* 5
+    ELSE IF s.enf THEN "drop"                                          \* 5
     ELSE "next"                                                        \* 6,7 (18: warning only)
 
-CodeWanted(r) == \A id \in Addrs(r) : CodeId(id, r.cfg, r.dir = "tx") = "next"
+CodeWantedIn(s, r) == \A id \in Addrs(r) : CodeIdIn(id, s, r.dir = "tx") = "next"
+
+CodeId(id, c, sending) == CodeIdIn(id, CodeState(c), sending)
+CodeWanted(r) == CodeWantedIn(CodeState(r.cfg), r)
+
+(* ---------------------------------------------------------------------------------
+   Life cycle.  c.act is what the transport of the first connection reports; a history
+   h is what happened to the same protocol object afterwards: "lost" (connection_lost)
+   and the act of each later connection_made, alternating.  The statement is evaluated
+   under the configuration in force when the packet arrives / the command is sent
+   (the filter is stateless, J24): the lists as configured, and as active gateway the
+   one of the connection that is up - none while the connection is down.               *)
+
+Acts       == {"gwy", "none", "foreign"}
+ConnEvents == Acts \cup {"lost"}
+LegalHist(h) == \A i \in 1..Len(h) : /\ h[i] \in ConnEvents
+                                     /\ (h[i] = "lost") <=> (i % 2 = 1)
+Up(h)        == IF h = <<>> THEN TRUE ELSE h[Len(h)] # "lost"
+InForce(c, h) == IF h = <<>> THEN c
+                 ELSE [c EXCEPT !.act = IF h[Len(h)] = "lost" THEN "none" ELSE h[Len(h)]]
+
+RECURSIVE CodeAfter(_, _)
+CodeAfter(c, h) == IF h = <<>> THEN CodeState(c)
+                   ELSE LET s == CodeAfter(c, SubSeq(h, 1, Len(h) - 1))
+                            e == h[Len(h)]
+                        IN IF e = "lost" THEN CodeConnLost(s) ELSE CodeConnMade(s, e)
 
 (* ---------------------------------------------------------------------------------
    Rows: what can be put in a frame.                                                 *)
